@@ -40,6 +40,16 @@ CHECKS = {
         text="TLC proves that the automaton refines the declarative greedy segmentation Seg (written without reference to the "
              "automaton) for init_min <= 1, plus the named corollaries; same formula as monitor on observed executions.",
         ref="DESIGN.md 5/C04", technique="TLA+ refinement check (TLC) + behaviour replay + trace validation", note=TOK_NOTE),
+    "C07": dict(
+        text="Energy.tla transcribes the decision (signed little-endian decode, de-interleave, mean square vs 10^(T/10), -200 dB floor, "
+             "channel selection incl. negative indices and errors) in exact integer arithmetic; TLC enumerates every window of the bound "
+             "x thresholds and checks monotonicity, any = max, aliases, errors; one implementation test per exported case (x width x "
+             "selector spelling) against AudioEnergyValidator; seeded raw windows judged by TLC (EnergyTrace decodes the bytes itself); "
+             "full-scale samples decided by a Python mirror of the formula that is validated against TLC on every judged case.",
+        ref="DESIGN.md 5/C07", technique="TLA+ case enumeration (TLC) + one implementation test per case + trace validation; translation-checked mirror for extremes",
+        note="Trusted: TLC/SANY, CPython, numpy float64 away from exact boundaries. TLC integers are 32-bit (bounded sample magnitudes in the model); "
+             "cases within 1e-9 (relative) of a threshold are asserted only where float evaluation is exact (mean square 10^(2j), 1/2/4 channels for mix). "
+             "Thresholds are multiples of 10 dB in TLC, of 5 dB in the mirror."),
     "C08": dict(
         text="Hand-over timing (at/fl observed at the consumer), exactly one end-of-stream request, append-only output and prefix "
              "consistency (FlushCandidateKept) proved by TLC on the grid; real code run in generator, callback and list mode and "
